@@ -1,5 +1,5 @@
 """C06: hostile inputs on sanitizer builds, bounds-monitoring buffer, cvector hook, watchdog; standalone regex matcher."""
-import random, collections, traceback, os, json, re
+import random, collections, traceback, os, json, re, subprocess
 from . import common, ref_lr1, ref_regex as rr, emit_grammar as eg, gen_grammar as gg, lexer_check as lxc, regex_check as rxc, diag as dg
 from .grammar import Grammar, Rule, Term, simple
 
@@ -159,3 +159,49 @@ def regex_worker(args):
         return out
     except Exception:
         return {'counts': {}, 'viol': [], 'samples': [], 'distinct': [], 'incon': ['regex safety worker: ' + traceback.format_exc()[-1200:]]}
+
+
+# ---------------------------------------------------------------- valgrind memcheck on a plain build (uninitialised values, thorough tier)
+def valgrind_worker(spec):
+    out = {'counts': collections.Counter(), 'viol': [], 'samples': [], 'distinct': [], 'incon': []}
+    C = out['counts']
+    try:
+        import shutil, tempfile
+        if not shutil.which('valgrind'):
+            out['incon'].append('valgrind not installed'); return out
+        rnd = random.Random(spec['seed'])
+        gs = [Grammar.from_json(j) for j in spec['grammars']]
+        exe = common.build(eg.emit_tu(gs), 'gxx', extra=eg.mode_defines([0, 1, 3, 4]) + ['-g'])
+        jobs = [('D', gi) for gi in range(len(gs))]
+        for gi, g in enumerate(gs):
+            ins = [d for d in hostile_inputs(g, rnd, 'quick') if len(d) <= 200]
+            rnd.shuffle(ins)
+            for idx, d in enumerate(ins[: spec['n_inputs']]):
+                for m in (0, 1, 3, 4): jobs.append((gi, idx, m, d))
+        lines = []
+        for j in jobs:
+            lines.append('D %d' % j[1] if j[0] == 'D' else '%d %d %d %s' % (j[0], j[1], j[2], eg.hexin(j[3])))
+        d = os.path.join(common.WORK, 'jobs'); os.makedirs(d, exist_ok=True)
+        fd, path = tempfile.mkstemp(prefix='vg', dir=d)
+        with os.fdopen(fd, 'w') as f: f.write('\n'.join(lines) + '\n')
+        try:
+            import subprocess
+            r = subprocess.run(['valgrind', '--error-exitcode=99', '--track-origins=yes', '--num-callers=12', '-q', exe, path], capture_output=True, timeout=3000)
+        finally:
+            os.unlink(path)
+        err = r.stderr.decode('latin-1', 'replace')
+        nrec = r.stdout.count(b'\nO ') + (1 if r.stdout.startswith(b'O ') else 0)
+        C['evaluations'] += nrec; C['executions_under_memcheck'] += nrec
+        blocks = re.findall(r'==\d+== (Conditional jump[^\n]*|Use of uninitialised[^\n]*|Invalid (?:read|write)[^\n]*|Syscall param[^\n]*)(?:\n==\d+==[^\n]*){0,8}', err)
+        if r.returncode == 99 or blocks:
+            out['viol'].append((['site:memcheck@report'], 'valgrind memcheck reports on the plain build: %s ... %s' % (collections.Counter(blocks).most_common(3), err[:800]), {'stderr': err[:4000], 'grammars': spec['grammars']}))
+        elif r.returncode != 0 or b'END' not in r.stdout:
+            out['incon'].append('valgrind run failed rc=%s: %s' % (r.returncode, err[-300:]))
+        out['samples'].append({'memcheck_cases': nrec, 'grammars': [g.text() for g in gs[:2]]})
+    except subprocess.TimeoutExpired:
+        out['incon'].append('valgrind watchdog expired')
+    except common.BuildError as e:
+        out['incon'].append('valgrind build: ' + e.diag[:400])
+    except Exception:
+        out['incon'].append('valgrind worker: ' + traceback.format_exc()[-1200:])
+    return out
